@@ -7,5 +7,6 @@ for p in $PROPS; do
   s=$(date +%s)
   out=$(VERIF_SEED=$SEED ./check $p --tier $TIER 2>&1); rc=$?
   e=$(( $(date +%s) - s ))
+  [ $rc -ne 0 ] && echo "$out" > /tmp/runall_fail_${p}_${TIER}_${SEED}_$(date +%s).log
   echo "$p tier=$TIER seed=$SEED exit=$rc ${e}s $(echo "$out" | grep -c '^KNOWN-FINDING') known | $(echo "$out" | grep -E '^VIOLATION|^INFRA' | head -2 | tr '\n' ' ')"
 done
